@@ -21,6 +21,11 @@ FAULTS = ['ioerr', 'eof', 'foreign', 'kbint', 'badbool']
 POLL = 1 << 18
 
 
+FOREIGN_FAMILY = [ValueError, RuntimeError, OSError, BrokenPipeError, TimeoutError, ConnectionResetError, FileNotFoundError, KeyError,
+                  IndexError, ZeroDivisionError, OverflowError, AssertionError, AttributeError, TypeError, StopIteration, EOFError,
+                  UnicodeDecodeError, NotImplementedError, RecursionError, MemoryError, BufferError, ImportError]
+
+
 class Injected(Exception):
     """raised inside the reference machine's IO hook at the chosen call index."""
 
@@ -102,7 +107,12 @@ def judge_sync(case: Dict[str, Any], k: int, fault: str, config: Dict[str, Any],
         elif fault == 'eof':
             thrown['exc'] = IOReadOnEOF('injected eof')
         elif fault == 'foreign':
-            thrown['exc'] = ValueError('foreign failure')
+            # any Exception that is not the library's: every built-in family (an "except OSError" or "except LookupError" clause
+            # somewhere on the way out must not let one family through unwrapped)
+            family = FOREIGN_FAMILY[(k + len(case['mem'])) % len(FOREIGN_FAMILY)]
+            thrown['exc'] = family('foreign failure') if family is not UnicodeDecodeError else UnicodeDecodeError('utf-8', b'\xff', 0, 1, 'foreign failure')
+            counters.setdefault('foreign_exception_classes', {})
+            counters['foreign_exception_classes'][family.__name__] = counters['foreign_exception_classes'].get(family.__name__, 0) + 1
         elif fault == 'kbint':
             thrown['exc'] = KeyboardInterrupt()
         elif fault == 'systemexit-like':
